@@ -63,6 +63,7 @@ pub fn all() -> Vec<CheckDef> {
                 Family { enumerate: None, variant: "", name: "T4-upgrade-racing-cascade", strategy: |_| templates::t4(), cases: |t| t.pick(12_000, 120_000) },
                 Family { enumerate: None, variant: "", name: "T5-install-into-unlinked-node", strategy: |_| templates::t5(), cases: |t| t.pick(12_000, 120_000) },
                 Family { enumerate: None, variant: "", name: "T8-destructor-holding-a-guard", strategy: |_| templates::t8(), cases: |t| t.pick(12_000, 120_000) },
+                Family { enumerate: None, variant: "", name: "T10-long-disposal-spanning-re-pins", strategy: |_| templates::t10(), cases: |t| t.pick(1_600, 16_000) },
                 Family { enumerate: None, variant: "", name: "T9-move-into-node-dying-by-cascade", strategy: |_| templates::t9(), cases: |t| t.pick(30_000, 300_000) },
             ],
             exec: rcworld::exec,
